@@ -61,7 +61,7 @@ func c04Ops() []Op {
 		Op{Kind: "start", Time: "12:00", Resume: true},
 		Op{Kind: "start", Time: "12:00", ResumeNth: 1},
 		Op{Kind: "start", Time: "12:00", ResumeNth: -1},
-		Op{Kind: "start", Time: "12:00", ResumeNth: 7},
+		Op{Kind: "start", Rel: "tomorrow"}, // now, written relative to tomorrow's record (`<`-shifted)
 		Op{Kind: "start", Time: "12:00", Resume: true, HasSum: true, Summary: "conflict"},
 		Op{Kind: "start", Date: dp, Time: "<23:00", Resume: true},
 		Op{Kind: "start", Date: dm, Time: "9:00"},
@@ -78,7 +78,7 @@ func c04Ops() []Op {
 		Op{Kind: "stop", Date: dm, Time: "23:00"},
 		Op{Kind: "stop", Date: d0, Time: "10:00pm"},
 		Op{Kind: "switch", Time: "9:30"},
-		Op{Kind: "switch", Time: "7:00"},
+		Op{Kind: "stop", Rel: "tomorrow"},
 		Op{Kind: "switch", Time: "13:00", HasSum: true, Summary: "next #n"},
 		Op{Kind: "switch", Time: "13:00", Resume: true},
 		Op{Kind: "switch", Time: "13:00", ResumeNth: 7},
